@@ -39,6 +39,12 @@ def decorate(rng, a, mode):
             n = sh[0]
             a['w'][t] = [a['w'][t][i * n + j] if i == j else 0 for i in range(n) for j in range(n)]
             a['pat'][t] = 'diag'
+        elif len(sh) == 3 and sh[1] == sh[2] and sh[1] >= 2 and a['els'][t]['type'][1] == a['els'][t]['type'][2] and rng.random() < 0.8:
+            # (kA, kB, kB): sparsity in the later axes, NON-ZERO default (also infinite)
+            d = rng.choice([5, 7, INF])
+            n0, n = sh[0], sh[1]
+            a['w'][t] = [a['w'][t][(i * n + j) * n + j] if j == k else d for i in range(n0) for j in range(n) for k in range(n)]
+            a['pat'][t] = ('diag3', d)
         elif len(sh) == 2 and sh[0] >= 2 and rng.random() < 0.4:
             a['w'][t] = [a['w'][t][j] for i in range(sh[0]) for j in range(sh[1])]
             a['pat'][t] = 'expand'
@@ -46,10 +52,17 @@ def decorate(rng, a, mode):
 
 
 def patterned_hooks(a):
+    import torch
     from fggs.indices import PatternedTensor, PhysicalAxis
     hooks = {}
     for t, p in a['pat'].items():
-        if p == 'diag':
+        if isinstance(p, (tuple, list)) and p[0] == 'diag3':
+            def h(ten, d=p[1]):
+                kA, kB = PhysicalAxis(ten.shape[0]), PhysicalAxis(ten.shape[1])
+                phys = torch.stack([ten[:, j, j] for j in range(ten.shape[1])], dim=1).clone()
+                return PatternedTensor(phys, (kA, kB), (kA, kB, kB), math.inf if d == INF else float(d))
+            hooks[t] = h
+        elif p == 'diag':
             def h(ten):
                 k = PhysicalAxis(ten.shape[0])
                 return PatternedTensor(ten.diagonal().clone(), (k,), (k, k), 0.)
@@ -210,7 +223,7 @@ def run(tier, seed):
     n = 150 if tier == 'quick' else 2000
     ags = []
     for i in range(n):
-        a = AG.gen_ag(rng, n_nts=(1, 3), max_rules=2, max_nodes=4, max_edges=3, recursion='any' if i % 2 else 'none',
+        a = AG.gen_ag(rng, n_nts=(1, 3), max_rules=2, max_nodes=4, max_edges=3, recursion='any' if i % 2 else 'none', n_nls=(1, 1) if i % 3 == 0 else (1, 2),
                       weights='primes', p_inf=0.05, value_cap=1 << 30, allow_unused_terms=(i % 4 == 0), p_norules=0.2)
         ags.append(decorate(rng, a, ['explicit', 'implicit', 'mixed'][i % 3]))
     with Scratch() as work:
